@@ -170,13 +170,14 @@ theorem failed_refresh_keeps_entry (P : Params) (s : State) (j : Nat) (r : Refre
   refine ⟨rfl, by simp [done], fun _ _ => rfl, ⟨{ r with pc := .finished }, by simp [List.getElem?_set, hj], rfl⟩⟩
 
 /-- a refresh that brings an error *response* (e.g. NXDOMAIN, SERVFAIL) is stored set-if-absent (C08): it does
-    not displace the entry that is still there -/
+    not displace the entry as long as that entry is alive on the cache clock -/
 theorem negative_refresh_keeps_entry (P : Params) (s : State) (j : Nat) (r : Refresher) (m : Msg) (now delay : Nat)
     (e : Entry) (hr : s.refreshers[j]? = some r) (hpc : r.pc = .fetched m) (hneg : m.rcode ≠ 0)
-    (hlive : s.mem r.key = some e) : (step P s (.store j now delay)).mem = s.mem := by
+    (hpres : s.mem r.key = some e) (hlive : P.clock (now + delay) < e.expTick) :
+    (step P s (.store j now delay)).mem = s.mem := by
   show (storeStep P s j now delay).mem = _
   simp only [storeStep, hr, hpc]
-  exact cacheStore_neg_present P.clock P.cfg s.mem r.key m now delay s.nextId e hneg hlive
+  exact cacheStore_neg_present P.clock P.cfg s.mem r.key m now delay s.nextId e hneg hpres hlive
 
 /-! ### the executable specifications accept the models -/
 
